@@ -12,6 +12,7 @@ pub mod c08;
 pub mod c09;
 pub mod c10;
 pub mod c11;
+pub mod ctl;
 pub mod c12;
 pub mod stark;
 pub mod c16;
@@ -50,8 +51,8 @@ pub fn registry() -> Vec<Property> {
         Property { id: "C06", gen: c06::gen, exec: c06::exec, shrink: c06::shrink, runs: (48, 1200) },
         Property { id: "C07", gen: c07::gen, exec: c07::exec, shrink: c07::shrink, runs: (600, 12000) },
         Property { id: "C08", gen: c08::gen, exec: c08::exec, shrink: c08::shrink, runs: (120, 4000) },
-        Property { id: "C09", gen: c09::gen, exec: c09::exec, shrink: c09::shrink, runs: (300, 6000) },
-        Property { id: "C10", gen: c10::gen, exec: c10::exec, shrink: c10::shrink, runs: (200, 4000) },
+        Property { id: "C09", gen: c09::gen, exec: c09::exec, shrink: c09::shrink, runs: (1000, 20000) },
+        Property { id: "C10", gen: c10::gen, exec: c10::exec, shrink: c10::shrink, runs: (300, 6000) },
         Property { id: "C11", gen: c11::gen, exec: c11::exec, shrink: c11::shrink, runs: (48, 1200) },
         Property { id: "C12", gen: c12::gen, exec: c12::exec, shrink: c12::shrink, runs: (3000, 60000) },
         Property { id: "C16", gen: c16::gen, exec: c16::exec, shrink: c16::shrink, runs: (400, 8000) },
